@@ -1,0 +1,55 @@
+#pragma once
+// Verification seams. Everything in here is compiled only when SQFVM_RUNTIME_VERIF
+// is defined; without the define this header is empty and the runtime is unchanged.
+#ifdef SQFVM_RUNTIME_VERIF
+#include <cstddef>
+
+namespace sqf::runtime
+{
+    class runtime;
+    class instruction;
+    namespace verif
+    {
+        // Sites passed to hooks::yield
+        enum site : int
+        {
+            cas_leave_scope = 1,
+            cas_start = 2,
+            cas_assembly_step = 3,
+            cas_line_step = 4,
+            cas_abort = 5,
+            release_leave_scope = 11,
+            release_start = 12,
+            release_assembly_step = 13,
+            release_line_step = 14,
+            release_abort = 15,
+            stop_before_store = 20,
+            abort_before_store = 21
+        };
+        struct hooks
+        {
+            // execute_do entered with the given instruction budget / left (any return path)
+            void (*on_slice_begin)(runtime&, size_t budget) = nullptr;
+            void (*on_slice_end)(runtime&) = nullptr;
+            // a frame finished and is about to be popped by execute_do
+            void (*on_frame_done)(runtime&) = nullptr;
+            // around the execution of a single instruction; `after` runs before the
+            // runtime-error flag is evaluated
+            void (*on_instruction_before)(runtime&, instruction&) = nullptr;
+            void (*on_instruction_after)(runtime&, instruction&) = nullptr;
+            // scheduler loop of action::start: context at index selected / handled
+            void (*on_visit)(runtime&, size_t index) = nullptr;
+            void (*on_visit_done)(runtime&, size_t index, int result) = nullptr;
+            // slice length used by the scheduler loop (shipped value is passed in)
+            size_t (*slice_length)(runtime&, size_t shipped) = nullptr;
+            // cooperative scheduling points inside runtime::execute
+            void (*yield)(runtime&, int site) = nullptr;
+        };
+        inline hooks& get_hooks()
+        {
+            static hooks instance;
+            return instance;
+        }
+    }
+}
+#endif // SQFVM_RUNTIME_VERIF
